@@ -381,12 +381,108 @@ defprog_ser! {
    }
 }
 
+
+// ---- 5. the ternary form eq(K, T, T): one equivalence relation per key K. Serial only (the
+//         provider has no concurrent implementation), so these run as the serial baseline share of
+//         C10 and in the histories / deadline strikes of C13 and C14. Facts for one key arrive over
+//         many iterations, keys pause and resume (a key gets nothing for some iterations, then more),
+//         facts move between keys, and every index the provider offers is read inside the recursive
+//         stratum: [], [0], [1], [0,1], [1,2] (as a 3-clause rule and as a re-orderable simple
+//         join), [0,1,2]. (Binding only column 2 does not compile: `ToEqRel2Ind2` does not exist.)
+defprog_ser! {
+   name: eq_tern;
+   positive: true;
+   tags: ["c10", "c13", "c14", "byods-ser"];
+   reference: Some("eq_tern_ref");
+   rels: {
+      relation kpair(u32, u32, u32) [input];
+      relation f(u32, u32) [input];
+      relation node(u32) [input];
+      relation key(u32) [input];
+      relation big(u32, u32) [input];
+      relation cand(u32, u32, u32) [input];
+      relation #[ds(ascent_byods_rels::eqrel)] eq(u32, u32, u32) [noio];
+      relation eq_out(u32, u32, u32) [];
+      relation r_0(u32, u32, u32) [];
+      relation r_1(u32, u32) [];
+      relation r_01(u32, u32, u32) [];
+      relation r_12(u32, u32, u32) [];
+      relation r_12j(u32, u32, u32) [];
+      relation r_full(u32, u32, u32) [];
+      relation late(u32, u32, u32) [];
+   }
+   gens: [("eq_tern", gens::eq_tern), ("random", gens::random), ("small", gens::small)];
+   rules: {
+      eq(k, a, b) <-- kpair(k, a, b);
+      // congruence inside a key: one merge per iteration along the chain f
+      eq(k, c, d) <-- eq(k, a, b), f(a, c), f(b, d);
+      // facts move between keys: the target key pauses until the source key has merged something
+      eq(k2, a, b) <-- eq(k, a, b), f(k, k2), key(k2);
+      r_1(k, y) <-- node(x), eq(k, x, y);
+      eq(k, x, y) <-- r_1(k, y), node(x), f(x, y);
+      r_0(k, x, y) <-- key(k), eq(k, x, y);
+      r_01(k, x, y) <-- key(k), node(x), eq(k, x, y);
+      eq(k, y, z) <-- r_01(k, _, y), f(y, z), node(z);
+      r_12(k, x, y) <-- node(x), node(y), eq(k, x, y);
+      r_12j(k, x, y) <-- big(x, y), eq(k, x, y);
+      eq(k, x2, y) <-- r_12j(k, x, y), f(x, x2), if x2 != y;
+      r_full(k, a, b) <-- cand(k, a, b), eq(k, a, b);
+      eq_out(k, a, b) <-- eq(k, a, b);
+      late(k, x, y) <-- key(k), eq(k, x, y), f(y, _), if x < y;
+   }
+}
+
+defprog_ser! {
+   name: eq_tern_ref;
+   positive: true;
+   tags: ["ref"];
+   reference: None;
+   rels: {
+      relation kpair(u32, u32, u32) [input];
+      relation f(u32, u32) [input];
+      relation node(u32) [input];
+      relation key(u32) [input];
+      relation big(u32, u32) [input];
+      relation cand(u32, u32, u32) [input];
+      relation eq(u32, u32, u32) [];
+      relation eq_out(u32, u32, u32) [];
+      relation r_0(u32, u32, u32) [];
+      relation r_1(u32, u32) [];
+      relation r_01(u32, u32, u32) [];
+      relation r_12(u32, u32, u32) [];
+      relation r_12j(u32, u32, u32) [];
+      relation r_full(u32, u32, u32) [];
+      relation late(u32, u32, u32) [];
+   }
+   gens: [("random", gens::random)];
+   rules: {
+      eq(k, x, x), eq(k, y, y), eq(k, y, x) <-- eq(k, x, y);
+      eq(k, x, z) <-- eq(k, x, y), eq(k, y, z);
+      eq(k, a, b) <-- kpair(k, a, b);
+      eq(k, c, d) <-- eq(k, a, b), f(a, c), f(b, d);
+      eq(k2, a, b) <-- eq(k, a, b), f(k, k2), key(k2);
+      r_1(k, y) <-- node(x), eq(k, x, y);
+      eq(k, x, y) <-- r_1(k, y), node(x), f(x, y);
+      r_0(k, x, y) <-- key(k), eq(k, x, y);
+      r_01(k, x, y) <-- key(k), node(x), eq(k, x, y);
+      eq(k, y, z) <-- r_01(k, _, y), f(y, z), node(z);
+      r_12(k, x, y) <-- node(x), node(y), eq(k, x, y);
+      r_12j(k, x, y) <-- big(x, y), eq(k, x, y);
+      eq(k, x2, y) <-- r_12j(k, x, y), f(x, x2), if x2 != y;
+      r_full(k, a, b) <-- cand(k, a, b), eq(k, a, b);
+      eq_out(k, a, b) <-- eq(k, a, b);
+      late(k, x, y) <-- key(k), eq(k, x, y), f(y, _), if x < y;
+   }
+}
+
 pub fn all() -> Vec<ProgramDef> {
    vec![
       trrel_bin::def(),
       trrel_tern::def(),
       trrel_uf_bin::def(),
       eq_ser_history::def(),
+      eq_tern::def(),
+      eq_tern_ref::def(),
       eq_congruence::def(),
       eq_congruence_ref::def(),
       eq_access::def(),
